@@ -20,25 +20,61 @@ Lemma C11_sound_lemma m t seps trailer :
   parse m (render (combine seps (map s2t (flatten t))) trailer) = Ok (lower_sexp t).
 Proof.
   intros Hat Hlen Hv Htr. unfold parse. rewrite tokenize_render by assumption.
-  apply parse_tokens_iff. split; [|apply atoms_ok_wf_lower; exact Hat].
+  apply parse_tokens_iff. exists []. rewrite app_nil_r. split; [|apply atoms_ok_wf_lower; exact Hat].
   rewrite flatten_lower.
   unfold tokstr. rewrite <- (map_map snd (fun t => t2s (lower_text t))).
   rewrite map_snd_combine by (rewrite map_length; exact Hlen).
   rewrite map_map. reflexivity.
 Qed.
 
-Lemma C11_complete_lemma m s t :
-  parse m s = Ok t -> tokenize m s = flatten t /\ wf t = true.
-Proof. unfold parse. apply parse_tokens_iff. Qed.
+Lemma C11_sound_strict_lemma m t seps trailer :
+  atoms_ok t ->
+  List.length seps = List.length (flatten t) ->
+  valid_from m false (combine seps (map s2t (flatten t))) ->
+  is_trailer m trailer ->
+  parse_strict m (render (combine seps (map s2t (flatten t))) trailer) = Ok (lower_sexp t).
+Proof.
+  intros Hat Hlen Hv Htr. unfold parse_strict. rewrite tokenize_render by assumption.
+  apply parse_tokens_strict_iff. split; [|apply atoms_ok_wf_lower; exact Hat].
+  rewrite flatten_lower.
+  unfold tokstr. rewrite <- (map_map snd (fun t => t2s (lower_text t))).
+  rewrite map_snd_combine by (rewrite map_length; exact Hlen).
+  rewrite map_map. reflexivity.
+Qed.
 
+(* what the code's reader guarantees: the result is a PREFIX of the token stream *)
+Lemma C11_complete_partial_lemma m s t :
+  parse m s = Ok t -> tokenize m s = flatten t ++ unread_tokens (tokenize m s) /\ wf t = true.
+Proof.
+  unfold parse. intros H. split; [apply unread_tokens_spec; exact H|].
+  apply parse_tokens_iff in H as (rest & _ & Hw). exact Hw.
+Qed.
+
+(* the full statement of the property for the strict reader (the spec) *)
+Lemma C11_complete_strict_lemma m s t :
+  parse_strict m s = Ok t <-> (tokenize m s = flatten t /\ wf t = true).
+Proof. unfold parse_strict. apply parse_tokens_strict_iff. Qed.
+
+(* the code's reader equals the strict one unless tokens are left unread: the finding class of D02 *)
+Lemma C11_agree_unless_trailing_lemma m s :
+  parse m s = parse_strict m s \/
+  (exists t, parse m s = Ok t /\ unread_tokens (tokenize m s) <> [] /\ parse_strict m s = Err ESyntax).
+Proof. unfold parse, parse_strict. apply parse_tokens_vs_strict. Qed.
+
+(* text that is not even a form followed by something is an error (unbalanced "(", stray ")", empty) *)
 Lemma C11_reject_lemma m s :
-  (forall t, wf t = true -> tokenize m s <> flatten t) ->
+  (forall t rest, wf t = true -> tokenize m s <> flatten t ++ rest) ->
   exists k, parse m s = Err k /\ k <> EFuel.
 Proof.
   intros H. unfold parse. destruct (parse_tokens (tokenize m s)) as [t|k] eqn:E.
-  - apply parse_tokens_iff in E as [E1 E2]. exfalso. exact (H t E2 E1).
+  - apply parse_tokens_iff in E as (rest & E1 & E2). exfalso. exact (H t rest E2 E1).
   - exists k. split; [reflexivity|]. intros ->. exact (parse_tokens_no_fuel _ E).
 Qed.
+
+(* the full completeness statement is FALSE of the code: trailing tokens are silently dropped (D02) *)
+Lemma C11_complete_refuted_lemma :
+  exists s t, parse MStr (s2t s) = Ok t /\ tokenize MStr (s2t s) <> flatten t.
+Proof. exists "(a b))"%string, (SList [Atom "a"; Atom "b"]). split; [reflexivity|]. vm_compute. discriminate. Qed.
 
 (* non-vacuity: a concrete layout with a comment, a tab, CRLF and mixed case *)
 Example C11_layout_example :
